@@ -28,6 +28,7 @@ pub fn def() -> PropDef {
 
 pub fn profile() -> Profile {
     Profile {
+        ladder_prologue_permille: 25,
         text_conflict_prologue_permille: 120,
         replicas: (2, 6),
         events: (10, 160),
